@@ -1062,16 +1062,23 @@ impl DcpsDomainParticipant {
                                             *x =
                                                 discovered_reader_data.dds_subscription_data.clone()
                                         }
-                                        None => data_writer.matched_subscription_list.push(
-                                            discovered_reader_data.dds_subscription_data.clone(),
-                                        ),
+                                        None => {
+                                            data_writer.matched_subscription_list.push(
+                                                discovered_reader_data
+                                                    .dds_subscription_data
+                                                    .clone(),
+                                            );
+                                            data_writer
+                                                .publication_matched_status
+                                                .current_count_change += 1;
+                                            data_writer.publication_matched_status.total_count += 1;
+                                            data_writer
+                                                .publication_matched_status
+                                                .total_count_change += 1;
+                                        }
                                     };
                                     data_writer.publication_matched_status.current_count =
                                         data_writer.matched_subscription_list.len() as i32;
-                                    data_writer.publication_matched_status.current_count_change +=
-                                        1;
-                                    data_writer.publication_matched_status.total_count += 1;
-                                    data_writer.publication_matched_status.total_count_change += 1;
 
                                     let unicast_locator_list = if discovered_reader_data
                                         .reader_proxy
